@@ -122,7 +122,11 @@ def recv_replayer(extra, path):
     cfg, v = extra["cfg"], extra["variant"]
     c = cat(_RECV_CAT)
     with LogCapture():
-        real = W.ReceiverReal(cfg, c, role=v["role"], mode=v["mode"], grid=v["grid"], chunk_mode=v["chunk"], seed=v["seed"])
+        try:
+            real = W.ReceiverReal(cfg, c, role=v["role"], mode=v["mode"], grid=v["grid"], chunk_mode=v["chunk"], seed=v["seed"])
+        except W.HandshakeFailed as e:     # an observation about the code under test, not a harness failure
+            return {"step": 0, "act": "handshake", "args": [], "exp": "opening handshake completes", "obs": str(e)[:400],
+                    "sig": {"setup": "receiver", "act": "handshake", "where": e.where, "deflate": cfg.get("deflate"), "variant_grid": v.get("grid")}}
         try:
             for i, s in enumerate(path):
                 obs = canon(real.step(s["act"], s["args"]))
@@ -160,7 +164,11 @@ def chan_replayer(extra, path):
     cfg, v = extra["cfg"], extra["variant"]
     c = cat(_CHAN_CAT)
     with LogCapture():
-        real = W.PairReal(cfg, c, grid=v["grid"], mode=v["mode"], seed=v["seed"], recompress=v.get("recompress", False))
+        try:
+            real = W.PairReal(cfg, c, grid=v["grid"], mode=v["mode"], seed=v["seed"], recompress=v.get("recompress", False))
+        except W.HandshakeFailed as e:     # an observation about the code under test, not a harness failure
+            return {"step": 0, "act": "handshake", "args": [], "exp": "opening handshake completes", "obs": str(e)[:400],
+                    "sig": {"setup": "pair", "act": "handshake", "where": e.where, "deflate": cfg.get("deflate"), "variant_grid": v.get("grid")}}
         try:
             pinged = {"c2s": False, "s2c": False}
             for i, s in enumerate(path):
@@ -223,8 +231,11 @@ def random_session(job):
     ev = []
     words = ["alpha", "béta", "gamma ", "δelta", "\u4e2d\u6587", " ", "0123456789", "\n"]
     with LogCapture():
-        pair = W.PairReal(cfg, sc, grid=rng.randrange(len(W.PAIR_GRID)), mode=rng.choice(["cb", "read"]), seed=seed, record=rec,
-                          recompress=rng.random() < 0.5)
+        try:
+            pair = W.PairReal(cfg, sc, grid=rng.randrange(len(W.PAIR_GRID)), mode=rng.choice(["cb", "read"]), seed=seed, record=rec,
+                              recompress=rng.random() < 0.5)
+        except W.HandshakeFailed as e:      # no specification action is called "error:...": TLC rejects the trace
+            return {"id": tid, "cfg": cfg, "ev": [{"a": "error:handshake", "args": [e.where, e.detail], "obs": {"c2s": [], "s2c": []}}]}
         try:
             last = {"c2s": [], "s2c": []}
             pending = {"c2s": 0, "s2c": 0}
@@ -285,6 +296,9 @@ def session_sig(t, bad, l):
     if not bad:
         return {}
     sig = {"setup": "session", "deflate": t["cfg"]["deflate"], "dir": bad["args"][0] if bad.get("args") else None}
+    if bad.get("a") == "error:handshake":
+        sig["dir"] = None
+        sig["where"] = bad["args"][0]
     if bad.get("a") == "error:wire":
         sig["dir"] = None
         sig["wire"] = [bad["args"][0].split(":")[0].split("(")[0].strip()]
